@@ -21,7 +21,7 @@ import c11_util as U
 
 THEOREMS = ["C11_same_flight_same_result", "C11_counter_share", "C11_at_most_one_running_partial",
             "C11_handed_pid_is_running_partial", "C11_num_actors_partial", "C11_counter_at_quiescence_partial",
-            "C11_respawn_refuted"]
+            "C11_respawn_refuted", "C11_respawn_child_refuted"]
 
 
 def nl(l):
@@ -41,7 +41,7 @@ def model_oracle(sc, out):
     registered instance when nothing is gated/held."""
     found = []
     k = sc["k"]
-    sim = U.Sim(k)
+    sim = U.Sim(k, [n for n in range(k) if sc["kinds"][n] == "child"])
     prev_results = [[] for _ in range(k)]
     stopped_after = [set() for _ in range(k)]
     for ai, (a, st) in enumerate(zip(sc["actions"], out["steps"])):
@@ -164,10 +164,11 @@ def run(ctx):
         for sc, o in zip(scs, mouts):
             ds = ";".join(U.coq_action(a) for a in sc["actions"])
             exp = ";".join("(%d,%s)" % (st["f"], nll(st["o"])) for st in o["steps"])
-            items.append("(%d,[%s],[%s])" % (sc["k"], ds, exp))
+            kids = nl([n for n in range(sc["k"]) if sc["kinds"][n] == "child"])
+            items.append("(%s,%d,[%s],[%s])" % (kids, sc["k"], ds, exp))
         body = """From Coq Require Import List. Import ListNotations.
 From GV Require Import C11.Model.
-Definition cases : list (nat * list daction * list (nat * list (list nat))) := [
+Definition cases : list (list nat * nat * list daction * list (nat * list (list nat))) := [
 %s
 ].
 Definition diffs := combine (seq 0 (length cases)) (map scenario_diff cases).
